@@ -359,7 +359,8 @@ def gen_records(tape, fmt, max_records, noncanon=True, min_records=1, style=None
         # 0: all integers, 1: all '.', 2: mixed ('.' next to integers)
         mixed_w = (4 if style.get("prefer_mixed_optint") else 1) if style.get("allow_mixed_optint") else 0
         ctx["optint_mode"] = tape.weighted([(6, 0), (0 if style.get("no_missing") else 1, 1), (mixed_w, 2)], "optint_mode")
-    ctx["list_trailing_comma"] = tape.boolean("list_tc", 1, 3) if any(k == "listint" for _, k in fmt.fields) else False
+    ctx["list_trailing_comma"] = (tape.boolean("list_tc", 1, 3) and not style.get("no_list_trailing_comma")) \
+        if any(k == "listint" for _, k in fmt.fields) else False
     if any(k == "vcfgt" for _, k in fmt.fields):
         ctx["n_samples"] = 1 + tape.draw(3, "n_samples")
         ctx["gt_extra"] = tape.boolean("gt_extra", 1, 2)
